@@ -31,7 +31,7 @@ MUST_REACH = ["gmres:lucky_breakdown", "gmres:lu_fallback", "stagnation:cycled_p
 
 EPS = refq.EPS
 CLASSES = ["generic", "herm_def", "herm_indef", "unitary", "scaled_identity", "identity_rank1", "identity_rank2", "upper_tri",
-           "lower_tri", "distinct_eigs", "quat_scaled_identity", "real_diagonal", "clustered_eigs", "near_identity"]
+           "lower_tri", "distinct_eigs", "quat_scaled_identity", "real_diagonal", "clustered_eigs", "near_identity", "jordan_upper", "jordan_lower"]
 
 
 # --------------------------------------------------------------------------------------
@@ -154,6 +154,27 @@ def make_matrix(rng, cls, n, d=None):
             v = rng.standard_normal(4)
             c[i, i] = v / np.linalg.norm(v) * (1.0 + rng.random())
         A = refq.qa(c)
+    elif cls in ("jordan_upper", "jordan_lower"):
+        # ONE Jordan block: a repeated NON-REAL quaternion on the diagonal and generic quaternions next to it (defective: a single eigen-
+        # direction).  With the right-hand side "defective_eig_residual" (rhs_list) the residual left by the first cycle is, up to round-off,
+        # that eigenvector: the next cycle starts from an almost invariant Krylov space at an INNER Arnoldi step, after a cycle that failed
+        lam = refq.randq(rng, 1, 1)[0, 0]
+        lam = lam / abs(lam) * (1.0 + rng.random())
+        mus = refq.randq(rng, max(n - 1, 1), 1)[:, 0]
+        if rng.random() < 0.5:                     # small integer data half of the time
+            lam = np.quaternion(*[float(v) for v in rng.integers(-3, 4, size=4)])
+            lam = lam if abs(lam) > 0 and (lam.x, lam.y, lam.z) != (0.0, 0.0, 0.0) else np.quaternion(1, 1, 0, 0)
+            mus = refq.qa(rng.integers(-3, 4, size=(max(n - 1, 1), 4)).astype(float))
+            mus = np.array([m_ if abs(m_) > 0 else np.quaternion(2, 0, -1, 0) for m_ in mus])
+        A = refq.zeros(n, n)
+        for i in range(n):
+            A[i, i] = lam
+        for i in range(n - 1):
+            if cls == "jordan_upper":
+                A[i, i + 1] = mus[i]
+            else:
+                A[i + 1, i] = mus[i]
+        info["jordan"] = (lam, mus, cls == "jordan_upper")
     else:
         raise ValueError(cls)
     return A, info
@@ -161,6 +182,18 @@ def make_matrix(rng, cls, n, d=None):
 
 def rhs_list(rng, n, info, tier):
     out = [("generic", refq.randq(rng, n, 1))]
+    if info.get("jordan") is not None and n >= 2:
+        lam, mus, upper = info["jordan"]
+        for t in range(2):
+            sq = refq.randq(rng, 1, 1)[0, 0] if t else np.quaternion(*[float(v) for v in (1, 0, 0, 1)])
+            b = refq.zeros(n, 1)
+            if upper:                              # b = (..0.., -lam^-1 mu s, s): the first-cycle residual is ~ e_{n-1} q
+                b[n - 1, 0] = sq
+                b[n - 2, 0] = -(1 / lam) * mus[n - 2] * sq
+            else:                                  # mirror image
+                b[0, 0] = sq
+                b[1, 0] = -(1 / lam) * mus[0] * sq
+            out.append(("defective_eig_residual", b))
     e = np.zeros((n, 1, 4))
     e[int(rng.integers(0, n)), 0, int(rng.integers(0, 4))] = 1.0
     out.append(("unit_vector", refq.qa(e)))
